@@ -17,7 +17,10 @@ def exprs(rng, n):
     rng.shuffle(lead)
     lead = [mml.math(mml.mrow(mml.mi(ch), mml.mo("+"), mml.mn("1"))) for ch in ["б", "Б", "α", "Ω", "ℵ", "A"]] + \
            [mml.math(mml.mrow(mml.mi("x"), mml.mo("+"), mml.mi("∞"))), mml.math(mml.mrow(mml.mo("∃"), mml.mi("x"), mml.mo("="), mml.mi("∞")))] + lead
-    return lead[:18] + mml.corpus_basic()[:12] + mml.corpus_basic()[-2:] + [mml.math(mml.gen_expr(rng, rng.randrange(1, 3))) for _ in range(n)]
+    # characters no braille table knows pass through as they are -- and are 4 bytes long, not 3 like a braille cell: positions are counted in cells
+    passthrough = [mml.math(mml.mrow(mml.mtext("😀😀😀😀😀😀"), mml.mo("+"), mml.mi("x"))), mml.math(mml.mrow(mml.mi("x"), mml.mo("+"), mml.mtext("😀😀"), mml.mo("="), mml.mn("12"))),
+                   mml.math(mml.mrow(mml.el("msup", mml.mi("😀"), mml.mn("2")), mml.mo("+"), mml.mi("B")))]
+    return passthrough + lead[:18] + mml.corpus_basic()[:12] + mml.corpus_basic()[-2:] + [mml.math(mml.gen_expr(rng, rng.randrange(1, 3))) for _ in range(n)]
 
 
 def erase78(s):
